@@ -32,7 +32,11 @@ Brignall-Ruskuc-Vatter criterion evaluated from the definitions:
   and asked for again; abort: a BaseException injected at every call event of an operation (fresh
   process per injection), then all entry points are read back on the same and on nested bases.
 
-Sub-checks: special, verdict, entry, pin, symmetry, schmerl_trotter, history, forms, fresh, abort.
+* same_length: bases with two elements of the same length 6, one of them not a pin-permutation,
+  on top of a short antichain - every order of the two, every entry point, one answer.
+
+Sub-checks: special, verdict, entry, pin, symmetry, schmerl_trotter, history, forms, fresh, abort,
+same_length.
 """
 from __future__ import annotations
 
@@ -174,9 +178,19 @@ def ref_special(basis):
     return avoided == 0, avoided
 
 
+_PIN_LONG = {}
+
+
 def ref_pin(basis):
-    """(finite?, extinction length) from the tabulated tree."""
-    e = F.extinction_depth(G["pin_by_len"], G["tree"].mask(basis), G["pin_depth"])
+    """(finite?, extinction length) from the tabulated tree; bases with a pattern longer than the
+    tabulated profiles (4) by the pruned depth-first search for that basis alone."""
+    if max(len(b) for b in basis) > 4:
+        key = (frozenset(basis), G["pin_depth"])
+        if key not in _PIN_LONG:
+            _PIN_LONG[key] = F.pin_extinction_for_basis(basis, G["pin_depth"])
+        e = _PIN_LONG[key]
+    else:
+        e = F.extinction_depth(G["pin_by_len"], G["tree"].mask(basis), G["pin_depth"])
     return e < G["pin_depth"], e
 
 
@@ -344,9 +358,11 @@ def observe(entry, basis, P=None):
             got = PinWords.has_finite_simples(P)
         elif entry == "simples_check_all":
             got = PinWords.has_finite_simples(P, check_all=True)
-        elif entry.startswith("simples_order:"):
-            idx = [int(x) for x in entry.split(":")[1].split(",")]
-            got = PinWords.has_finite_simples([P[i] for i in idx])
+        elif "_order:" in entry:
+            # <entry>_order:i,j,... = the entry asked with the basis elements in that order
+            name, idx = entry.split("_order:")
+            idx = [int(x) for x in idx.split(",")]
+            return observe(name, tuple(basis[i] for i in idx), [P[i] for i in idx])
         elif entry == "simples_tuple":
             got = PinWords.has_finite_simples(tuple(P))
         elif entry == "simples_frozenset":
@@ -439,6 +455,8 @@ def all_forms():
 
 
 def expected_for(entry, basis):
+    if "_order:" in entry:
+        entry = entry.split("_order:")[0]
     sp, avoided = ref_special(basis)
     if entry.split("@")[0] == "special":
         entry = "special"
@@ -813,6 +831,67 @@ def shard_abort(shard):
     return part, total
 
 
+# ---- same-length long elements: S + (u, v), u not a pin-permutation, v a decisive pin-permutation
+
+def shard_long_prep(shard):
+    tag = shard[0]
+    part = Partial()
+    if tag == "pinperms":
+        _, first, length = shard
+        perms, words = F.pin_perms_with_prefix(first, length)
+        return part, ("pinperms", perms, words)
+    if tag == "decisive":
+        _, S, cands = shard
+        out = [v for v in cands
+               if not any(R.contains(v, b) for b in S)
+               and F.pin_extinction_for_basis(list(S) + [v], G["pin_depth"]) < G["pin_depth"]]
+        return part, ("decisive", S, out)
+    raise ValueError(tag)
+
+
+def long_entries(nshort, full):
+    """ways of asking S + (u, v) (u, v at positions nshort, nshort+1)"""
+    s = list(range(nshort))
+    iu, iv = nshort, nshort + 1
+    o = {"S,u,v": s + [iu, iv], "S,v,u": s + [iv, iu], "u,v,S": [iu, iv] + s, "v,u,S": [iv, iu] + s}
+    f = {k: ",".join(map(str, v)) for k, v in o.items()}
+    ents = ["simples_order:" + f[k] for k in ("S,u,v", "S,v,u", "u,v,S", "v,u,S")]
+    ents += ["pin_order:" + f["S,u,v"], "pin_order:" + f["S,v,u"], "av", "strategy"]
+    if full:
+        ents += ["simples_check_all_order:" + f["S,u,v"], "simples_check_all_order:" + f["v,u,S"],
+                 "simples_db_order:" + f["S,u,v"], "simples_db_order:" + f["S,v,u"],
+                 "av_Basis_rev", "av_from_string", "strategy_rev_iter", "cli0"]
+    return ents
+
+
+def shard_long(shard):
+    cases, = shard
+    part = Partial()
+    G["dbdir"] = os.path.join(G["longdb"], str(os.getpid()))
+    os.makedirs(G["dbdir"], exist_ok=True)
+    for basis, nshort, full in cases:
+        ents = long_entries(nshort, full) if nshort is not None else ["simples", "av"]
+        answers = []
+        for entry in ents:
+            exp, detail = expected_for(entry, basis)
+            got = observe(entry, basis)
+            answers.append(got)
+            if got != exp:
+                part.violation("same_length", {"basis": basis, "entry": entry,
+                                               "pin_horizon": G["pin_depth"]},
+                               dict(detail, expected=exp, got=got))
+        # the oracle the property states on its own: one basis, one answer, however it is asked
+        verdicts = {a for e, a in zip(ents, answers) if not e.startswith("pin")}
+        if len(verdicts) > 1:
+            part.violation("same_length", {"basis": basis, "entry": "all", "ways": ents,
+                                           "pin_horizon": G["pin_depth"]},
+                           {"answers": dict(zip(ents, answers))})
+        part.add(len(ents) + 1, 1)
+        part.bump("same_length_bases")
+        part.sample({"basis": basis, "answers": dict(zip(ents, answers))}, cap=1)
+    return part
+
+
 def canon(basis):
     """the basis as a tuple ordered by (length, lexicographic) - the order R.bases produces"""
     return tuple(sorted(basis, key=lambda p: (len(p), p)))
@@ -909,10 +988,12 @@ def run(ctx, only=None):
     ]
     need_full = want("verdict") or want("entry") or want("pin") or want("symmetry") \
         or want("schmerl_trotter") or want("history") or want("forms") or want("fresh") \
-        or want("abort")
+        or want("abort") or want("same_length")
     klist = [4]
     if want("special"):
         klist += [5, 6]
+    elif want("same_length"):
+        klist += [6]
     prepare(ctx, klist, depth if need_full else 0, N if (need_full or want("special")) else 0,
             need_db=want("entry") or want("history") or want("forms"))
     ctx.section("reference", families={k: len(v) for k, v in G["members"].items()},
@@ -1110,6 +1191,73 @@ def run(ctx, only=None):
         ctx.section("special", bases=len(la), evaluations=ctx.evals - e0)
 
 
+    if want("same_length"):
+        run_same_length(ctx, quick, core2)
+
+
+def run_same_length(ctx, quick, core2):
+    """Bases S + (u, v): S a short antichain whose special simples are finite and whose pin
+    sequences are infinite, u a permutation of length 6 that is NOT a pin-permutation, v a
+    pin-permutation of length 6 that makes the pin sequences finite.  Asked in every order of
+    (u, v) before and after S through the utility (default / check_all / use_db), Av, the
+    strategy and the command line; every answer against the reference, and all answers for one
+    basis against each other."""
+    e0 = ctx.evals
+    res = ctx.pmap(shard_long_prep, [("pinperms", q, 6) for q in (1, 2, 3, 4)])
+    pins = set()
+    for r in res:
+        pins |= r[1]
+    nonpin = sorted(p for p in R.perms(6) if p not in pins)
+    if len(pins) != 664 or len(nonpin) != 56:
+        raise RuntimeError("reference pin-permutations of length 6: %d" % len(pins))
+    classes = sorted({min(R.orbit(p)) for p in nonpin})
+    shorts = sorted({orbit_rep(b) for b in core2
+                     if len(b) == 2 and ref_special(b)[0] and not ref_pin(b)[0]})
+    if quick:
+        shorts = shorts[1:2]
+    pins = sorted(pins)
+    res = ctx.pmap(shard_long_prep, [("decisive", S, c) for S in shorts for c in chunked(pins, 42)])
+    decisive = {S: [] for S in shorts}
+    for r in res:
+        decisive[r[1]] += r[2]
+    cases = []
+    for S in shorts:
+        dec = sorted(decisive[S])
+        if not dec:
+            raise RuntimeError("no decisive pin-permutation of length 6 for %r" % (S,))
+        for u in (classes if quick else nonpin):
+            cases.append((S + (u, dec[0]), len(S), not quick))
+        if not quick:
+            for v in dec[1:]:
+                cases.append((S + (classes[0], v), len(S), False))
+            # the long elements one at a time
+            cases += [(S + (u,), None, False) for u in classes]
+            cases += [(S + (v,), None, False) for v in dec[:3]]
+    # perm_to_pinword_mapping(6) takes ~6 s to build: once here, inherited by the workers (this
+    # is the last sub-check, so the other sub-checks fork from a process that never called the library)
+    try:
+        from permuta.permutils.pin_words import PinWords
+        PinWords.perm_to_pinword_mapping(6)
+    except Exception as exc:  # noqa
+        ctx.violation("same_length", {"basis": [], "entry": "perm_to_pinword_mapping(6)",
+                                      "pin_horizon": G["pin_depth"]}, {"exception": repr(exc)})
+        return
+    G["longdb"] = os.path.join(ctx.work, "db6")
+    os.makedirs(G["longdb"], exist_ok=True)
+    ctx.pmap(shard_long, [(c,) for c in chunked(cases, 1 if quick else 3)])
+    ctx.bounds["same_length"] = {
+        "S (orbit representatives of the two-element bases over S<=4 with finite special simples "
+        "and infinite pin sequences)": [list(S) for S in shorts],
+        "u": "%d permutations of length 6 that are not pin-permutations (%s)"
+             % (len(classes) if quick else len(nonpin),
+                "one per symmetry class" if quick else "all 56"),
+        "v": {str(list(S)): ("the first of " if quick else "first with every u, all with one u; of ")
+              + "%d decisive pin-permutations of length 6" % len(decisive[S]) for S in shorts},
+        "bases": len(cases),
+        "ways of asking": long_entries(2, not quick)}
+    ctx.section("same_length", bases=len(cases), evaluations=ctx.evals - e0)
+
+
 # --------------------------------------------------------------------------------------------
 # replay: one case, references recomputed for that basis only
 # --------------------------------------------------------------------------------------------
@@ -1180,6 +1328,13 @@ def replay(ctx, rec):
         return
     basis = tuple(tuple(p) for p in case["basis"])
     entry = case["entry"]
+    if sub == "same_length" and entry == "all":
+        G["dbdir"] = os.path.join(ctx.work, "db")
+        os.makedirs(G["dbdir"], exist_ok=True)
+        answers = {e: observe(e, basis) for e in case["ways"]}
+        if len({a for e, a in answers.items() if not e.startswith("pin")}) > 1:
+            ctx.violation(sub, case, {"answers": answers})
+        return
     if sub == "fresh":
         G["dbdir"] = os.path.join(ctx.work, "db")
         os.makedirs(G["dbdir"], exist_ok=True)
